@@ -318,6 +318,10 @@ package ipfscluster
 //@   property C10
 //@   requires pin != nil && pinsetInv()
 //@   records repinOffered = union(repinOffered, setof(pin))
+// "with all of the pin's options preserved": what is re-submitted is the stored pin itself - same CID, type, depth,
+// reference and options - with only its allocations cleared and the departed peer excluded
+//@   at_call Cluster.pin assert [resubmits-the-stored-pin] arg_pin != nil && arg_pin.Cid == old(pin.Cid) && arg_pin.Type == old(pin.Type) && arg_pin.MaxDepth == old(pin.MaxDepth) && arg_pin.Reference == old(pin.Reference) && arg_pin.PinOptions == old(pin.PinOptions) && len(arg_pin.Allocations) == 0
+//@   at_call Cluster.pin assert [departed-peer-excluded] len(blacklist) == 1 && blacklist[0] == p
 //@   ensures [never-unpins] nLogUnpin == old(nLogUnpin)
 //@   ensures [at-most-one-entry] nLogPin == old(nLogPin) || nLogPin == old(nLogPin) + 1
 //@   ensures [follower-does-nothing] c.config.FollowerMode ==> nLogPin == old(nLogPin)
